@@ -98,7 +98,19 @@ def run_prog(p, model, ctxs, x, trace):
     elif kind == "forward":
         model(x)
     elif kind == "raise":
-        raise Boom()
+        at = getattr(model, "_raise_at", None)
+        if at is None:
+            raise Boom()
+        # the exception is raised INSIDE a forward pass, when module [at] is about to run (its own pre-hook raises:
+        # torch has already run the global pre-hooks of that module and will skip its post-hooks)
+        def boom(mod, args):
+            raise Boom()
+
+        h = model[at].register_forward_pre_hook(boom)
+        try:
+            model(x)
+        finally:
+            h.remove()
 
 
 def main():
@@ -112,6 +124,7 @@ def main():
                 model = torch.nn.Sequential(torch.nn.Linear(8, 8), torch.nn.ReLU(), torch.nn.Linear(8, 4))
                 quantize(model, weights=Q.qint8, activations=Q.qint8)
                 x = torch.randn(2, 8)
+                model._raise_at = case.get("raise_at")
                 ctxs = [Calibration(momentum=0.9, streamline=False) for _ in range(case["nctx"])]
                 before = snap_globals()
                 trace = []
@@ -124,6 +137,21 @@ def main():
                 after = snap_globals()
                 r.update(before=before, after=after, raised=raised, max_inside=max([t[1]["pre"] - before["pre"] for t in trace if t[0] == "inside"] + [0]),
                          left=[t[1] for t in trace if t[0] == "left"])
+                # modules run afterwards are unaffected: outside every context the model behaves as its state_dict says - a control
+                # model of the same architecture, freshly quantized and loaded with the state_dict, gives the same outputs
+                try:
+                    with torch.no_grad():
+                        y_after = model(x)
+                    control = torch.nn.Sequential(torch.nn.Linear(8, 8), torch.nn.ReLU(), torch.nn.Linear(8, 4))
+                    quantize(control, weights=Q.qint8, activations=Q.qint8)
+                    control.load_state_dict(model.state_dict())
+                    with torch.no_grad():
+                        y_control = control(x)
+                    r["after_cls"] = [type(y_after).__name__, type(y_control).__name__]
+                    r["after_matches_control"] = type(y_after) is type(y_control) and digest(y_after) == digest(y_control)
+                except Exception as ex:  # noqa: BLE001
+                    r["after_cls"] = ["raised " + type(ex).__name__ + ": " + str(ex)[:80]]
+                    r["after_matches_control"] = False
                 # modules created / run afterwards are unaffected: a fresh float model must not be touched by leftover hooks
                 fresh = torch.nn.Sequential(torch.nn.Linear(8, 4))
                 quantize(fresh, weights=Q.qint8, activations=Q.qint8)
@@ -138,7 +166,11 @@ def main():
                 x = torch.randn(2, 5, 16) if case.get("attn") else torch.randn(3, 16)
                 float_before = {k: digest(v) for k, v in model.state_dict().items()}
                 float_params = {k: v.detach().clone() for k, v in model.state_dict().items()}
+                # the caller's own references to the float Parameter objects (an optimizer, a teacher model, a tied embedding outside
+                # the quantized sub-tree hold such references): quantize() reads them, it must not modify them
+                held = [(k, p_, digest(p_)) for k, p_ in model.named_parameters()]
                 quantize(model, weights=wq, activations=aq)
+                r["held_params_changed"] = [k for k, p_, d in held if digest(p_) != d]
                 # quantize() keeps the float parameters bit-identical
                 r["quantize_keeps_params"] = all(digest(model.state_dict()[k]) == float_before[k] for k in float_before if k in model.state_dict())
                 if aq is not None:
